@@ -33,7 +33,8 @@ class C13(Check):
             "sharding triple; pre-made info or --copy-info), then read back "
             "by a new simulated process; distinct = distinct reach signature "
             "(source kind, destination kind, encodings, dtype pair, "
-            "copy-info, #scales, exit handlers run / killed); non-trivial = "
+            "copy-info, #scales, exit handlers run / killed + re-run, two "
+            "library calls in one process); non-trivial = "
             "at least one destination chunk decoded and compared")
     assumptions = [
         "destination chunk sizes equal the source's (convert-chunks reads "
